@@ -7,7 +7,7 @@ import Proofs.Lemmas.SafetyCommon
   nested look-around runs).
 * `Inv`, `step_vc`, `back_vc`, `run_safe`: the safety invariant, generic in the position discipline
   `Spec prog inp A V` of `SafetyCommon`; needs `start ≤ end` only at `BackRef { icase: true }`.
-* `step_frame`, `step_pos`: what one instruction does to the groups / stack / position.
+* `step_frameS`, `step_pos`: what one instruction does to the groups / stack / position.
 * `lookConfined`, `RInv`, `run_restores`, `attempt_groups_restored`: frame property and restoration
   of the capture groups after a failed run.
 * `OInv`, `ostep_vc`, `obackLoop_vc`: the ordering certificate (`checkOrd`) is an invariant.
@@ -1172,7 +1172,7 @@ def StepFrame (prog : Prog) (ip : Nat) (insn : Insn) (st : State) (bts : Array B
 
 variable {prog : Prog} {inp : Input}
 
-theorem nextOrBt_frame {ip : Nat} {insn : Insn} (h1 : ip + 1 ∈ allSuccs prog ip insn)
+theorem nextOrBt_frameS {ip : Nat} {insn : Insn} (h1 : ip + 1 ∈ allSuccs prog ip insn)
     (r : Except Unit (Option Nat)) (site : String) (st : State) (bts : Array BtInsn) :
     StepFrame prog ip insn st bts (nextOrBt r site ip st bts) := by
   unfold nextOrBt
@@ -1192,7 +1192,7 @@ theorem setIfInBounds_self {α} (a : Array α) (i : Nat) (x y : α) (h : a[i]? =
     rw [if_pos hlt, h]
   · rfl
 
-theorem groupAct_frame {ip : Nat} {insn : Insn} (h1 : ip + 1 ∈ allSuccs prog ip insn) {g : Nat}
+theorem groupAct_frameS {ip : Nat} {insn : Insn} (h1 : ip + 1 ∈ allSuccs prog ip insn) {g : Nat}
     (hg : groupOf insn = some g) (upd : GroupData → GroupData) (site : String) (pos : Nat)
     (st : State) (bts : Array BtInsn) :
     StepFrame prog ip insn st bts (groupAct g upd site ip pos st bts) := by
@@ -1211,7 +1211,7 @@ theorem groupAct_frame {ip : Nat} {insn : Insn} (h1 : ip + 1 ∈ allSuccs prog i
       subst hr
       exact hg
 
-theorem runLoop_frame {ip : Nat} {insn : Insn} (st : State) (bts : Array BtInsn) (id mn : Nat)
+theorem runLoop_frameS {ip : Nat} {insn : Insn} (st : State) (bts : Array BtInsn) (id mn : Nat)
     (mx : Option Nat) (gr : Bool) (exit pos lip : Nat) (_hn : groupOf insn = none)
     (h1 : lip + 1 ∈ allSuccs prog ip insn) (h2 : exit ∈ allSuccs prog ip insn)
     (st0 : State) (bts0 : Array BtInsn) (hext : Ext prog ip insn st0 bts0 st bts) :
@@ -1278,7 +1278,7 @@ theorem runLoop_frame {ip : Nat} {insn : Insn} (st : State) (bts : Array BtInsn)
           · exact ⟨h2, fun _ _ h => by cases h⟩
           · exact ⟨trivial, fun _ _ h => by cases h⟩
 
-theorem step_frame {ip : Nat} {insn : Insn} (hi : prog.insns[ip]? = some insn) (pos : Nat)
+theorem step_frameS {ip : Nat} {insn : Insn} (hi : prog.insns[ip]? = some insn) (pos : Nat)
     (fwd : Bool) (st : State) (bts : Array BtInsn) :
     StepFrame prog ip insn st bts (step prog inp ip pos fwd st bts) := by
   unfold step
@@ -1289,19 +1289,19 @@ theorem step_frame {ip : Nat} {insn : Insn} (hi : prog.insns[ip]? = some insn) (
   | char c =>
     simp only
     split
-    · exact nextOrBt_frame (by simp [allSuccs]) _ _ _ _
+    · exact nextOrBt_frameS (by simp [allSuccs]) _ _ _ _
     · exact Ext.refl _ _ _ _ _
-  | charSet cs => exact nextOrBt_frame (by simp [allSuccs]) _ _ _ _
-  | byteSet bs => exact nextOrBt_frame (by simp [allSuccs]) _ _ _ _
-  | byteSeq bs => exact nextOrBt_frame (by simp [allSuccs]) _ _ _ _
-  | asciiBracket bm => exact nextOrBt_frame (by simp [allSuccs]) _ _ _ _
+  | charSet cs => exact nextOrBt_frameS (by simp [allSuccs]) _ _ _ _
+  | byteSet bs => exact nextOrBt_frameS (by simp [allSuccs]) _ _ _ _
+  | byteSeq bs => exact nextOrBt_frameS (by simp [allSuccs]) _ _ _ _
+  | asciiBracket bm => exact nextOrBt_frameS (by simp [allSuccs]) _ _ _ _
   | bracket idx =>
     simp only
     split
     · trivial
-    · exact nextOrBt_frame (by simp [allSuccs]) _ _ _ _
-  | matchAny => exact nextOrBt_frame (by simp [allSuccs]) _ _ _ _
-  | matchAnyExceptLineTerminator => exact nextOrBt_frame (by simp [allSuccs]) _ _ _ _
+    · exact nextOrBt_frameS (by simp [allSuccs]) _ _ _ _
+  | matchAny => exact nextOrBt_frameS (by simp [allSuccs]) _ _ _ _
+  | matchAnyExceptLineTerminator => exact nextOrBt_frameS (by simp [allSuccs]) _ _ _ _
   | wordBoundary inv =>
     simp only [wordBoundaryAct]
     split
@@ -1337,17 +1337,17 @@ theorem step_frame {ip : Nat} {insn : Insn} (hi : prog.insns[ip]? = some insn) (
       · exact ⟨by simp [allSuccs], Ext.refl _ _ _ _ _⟩
       · exact Ext.refl _ _ _ _ _
   | jump t => exact ⟨by simp [allSuccs], Ext.refl _ _ _ _ _⟩
-  | beginCaptureGroup g => exact groupAct_frame (by simp [allSuccs]) rfl _ _ _ _ _
-  | endCaptureGroup g => exact groupAct_frame (by simp [allSuccs]) rfl _ _ _ _ _
-  | resetCaptureGroup g => exact groupAct_frame (by simp [allSuccs]) rfl _ _ _ _ _
+  | beginCaptureGroup g => exact groupAct_frameS (by simp [allSuccs]) rfl _ _ _ _ _
+  | endCaptureGroup g => exact groupAct_frameS (by simp [allSuccs]) rfl _ _ _ _ _
+  | resetCaptureGroup g => exact groupAct_frameS (by simp [allSuccs]) rfl _ _ _ _ _
   | backRef g ic =>
     simp only
     split
     · trivial
     · split
       · split
-        · exact nextOrBt_frame (by simp [allSuccs]) _ _ _ _
-        · exact nextOrBt_frame (by simp [allSuccs]) _ _ _ _
+        · exact nextOrBt_frameS (by simp [allSuccs]) _ _ _ _
+        · exact nextOrBt_frameS (by simp [allSuccs]) _ _ _ _
       · exact ⟨by simp [allSuccs], Ext.refl _ _ _ _ _⟩
   | lookahead neg sg eg k => exact Or.inl rfl
   | lookbehind neg sg eg k => exact Or.inr rfl
@@ -1361,7 +1361,7 @@ theorem step_frame {ip : Nat} {insn : Insn} (hi : prog.insns[ip]? = some insn) (
     | none => trivial
     | some ld =>
       simp only
-      refine runLoop_frame _ _ id mn mx gr exit pos ip rfl (by simp [allSuccs]) (by simp [allSuccs])
+      refine runLoop_frameS _ _ id mn mx gr exit pos ip rfl (by simp [allSuccs]) (by simp [allSuccs])
         st bts ⟨[.setLoopData id ld], by simp, rfl, rfl, fun _ _ => rfl, ?_⟩
       intro r hr; simp only [List.mem_singleton] at hr; subst hr; trivial
   | loopAgain bg =>
@@ -1371,7 +1371,7 @@ theorem step_frame {ip : Nat} {insn : Insn} (hi : prog.insns[ip]? = some insn) (
     | some bi =>
       cases bi <;> first
         | trivial
-        | exact runLoop_frame st bts _ _ _ _ _ pos bg rfl (by simp [allSuccs, hbg])
+        | exact runLoop_frameS st bts _ _ _ _ _ pos bg rfl (by simp [allSuccs, hbg])
             (by simp [allSuccs, hbg]) st bts (Ext.refl _ _ _ _ _)
   | loop1 mn mx g =>
     simp only
@@ -1743,24 +1743,24 @@ theorem step_pos (ip pos : Nat) (fwd : Bool) (st : State) (bts : Array BtInsn) :
 /-! ### Regions: a look-around body and the capture groups it owns -/
 
 /-- Instructions `[lo, hi)`, groups `[gs, ge)`. -/
-structure Region where
+structure SRegion where
   lo : Nat
   hi : Nat
   gs : Nat
   ge : Nat
 
 /-- `none` is the top-level run (no restriction). -/
-def InR : Option Region → Nat → Prop
+def InR : Option SRegion → Nat → Prop
   | none, _ => True
   | some r, ip => r.lo ≤ ip ∧ ip < r.hi
 
-def GInR : Option Region → Nat → Prop
+def GInR : Option SRegion → Nat → Prop
   | none, _ => True
   | some r, g => r.gs ≤ g ∧ g < r.ge
 
 /-- Instruction `j` of a region keeps the run inside the region and writes only groups of the
 region (also through nested look-arounds). -/
-def insnClosed (prog : Prog) (r : Region) (j : Nat) (insn : Insn) : Bool :=
+def insnClosed (prog : Prog) (r : SRegion) (j : Nat) (insn : Insn) : Bool :=
   (allSuccs prog j insn).all (fun t => r.lo ≤ t && t < r.hi) &&
   (match groupOf insn with
    | some g => r.gs ≤ g && g < r.ge
@@ -1770,7 +1770,7 @@ def insnClosed (prog : Prog) (r : Region) (j : Nat) (insn : Insn) : Bool :=
    | .lookbehind _ sg eg _ => r.gs ≤ sg && eg ≤ r.ge
    | _ => true)
 
-def bodyClosed (prog : Prog) (r : Region) : Bool :=
+def bodyClosed (prog : Prog) (r : SRegion) : Bool :=
   (List.range (r.hi - r.lo)).all (fun d =>
     match prog.insns[r.lo + d]? with
     | some insn => insnClosed prog r (r.lo + d) insn
@@ -1785,11 +1785,11 @@ def lookConfined (prog : Prog) : Bool :=
     | some (.lookbehind _ sg eg k) => ip + 1 < k && bodyClosed prog ⟨ip + 1, k, sg, eg⟩
     | _ => true)
 
-def RClosed (prog : Prog) : Option Region → Prop
+def RClosed (prog : Prog) : Option SRegion → Prop
   | none => True
   | some r => bodyClosed prog r = true
 
-theorem rclosed_spec {R : Option Region} (hc : RClosed prog R) {ip : Nat} {insn : Insn}
+theorem rclosed_spec {R : Option SRegion} (hc : RClosed prog R) {ip : Nat} {insn : Insn}
     (hin : InR R ip) (hi : prog.insns[ip]? = some insn) :
     (∀ t ∈ allSuccs prog ip insn, InR R t) ∧ (∀ g, groupOf insn = some g → GInR R g) ∧
     (∀ neg sg eg k, (insn = .lookahead neg sg eg k ∨ insn = .lookbehind neg sg eg k) →
@@ -1820,7 +1820,7 @@ theorem lookConfined_spec (hlc : lookConfined prog = true) {ip : Nat} {neg : Boo
 
 /-! ### The restoration invariant -/
 
-def recIn (R : Option Region) : BtInsn → Prop
+def recInS (R : Option SRegion) : BtInsn → Prop
   | .exhausted => False
   | .setPosition ip _ => InR R ip
   | .setLoopData _ _ => True
@@ -1830,24 +1830,24 @@ def recIn (R : Option Region) : BtInsn → Prop
   | .nonGreedyLoop1Char c _ _ => InR R c
 
 /-- `gs` has the size of `G0` and agrees with it on the groups not owned by the region. -/
-def AgreeOut (R : Option Region) (gs G0 : Array GroupData) : Prop :=
+def AgreeOut (R : Option SRegion) (gs G0 : Array GroupData) : Prop :=
   gs.size = G0.size ∧ ∀ g : Nat, ¬ GInR R g → gs[g]? = G0[g]?
 
 /-- Stack shape and contents for the restoration proof: undoing the whole stack yields the groups
 `G0` with which the run was started. -/
-def RStack (R : Option Region) (G0 : Array GroupData) (st : State) (bts : Array BtInsn) : Prop :=
-  ∃ rest, bts.toList = .exhausted :: rest ∧ (∀ r ∈ rest, recIn R r) ∧
+def RStack (R : Option SRegion) (G0 : Array GroupData) (st : State) (bts : Array BtInsn) : Prop :=
+  ∃ rest, bts.toList = .exhausted :: rest ∧ (∀ r ∈ rest, recInS R r) ∧
     unwindG rest.reverse st.groups = G0 ∧ AgreeOut R st.groups G0
 
-def RInv (prog : Prog) (γ : Option Region × Array GroupData) (_fwd : Bool) (ip _pos : Nat)
+def RInv (prog : Prog) (γ : Option SRegion × Array GroupData) (_fwd : Bool) (ip _pos : Nat)
     (st : State) (bts : Array BtInsn) : Prop :=
   RClosed prog γ.1 ∧ InR γ.1 ip ∧ RStack γ.1 γ.2 st bts
 
-def RInvB (prog : Prog) (γ : Option Region × Array GroupData) (_fwd : Bool)
+def RInvB (prog : Prog) (γ : Option SRegion × Array GroupData) (_fwd : Bool)
     (st : State) (bts : Array BtInsn) : Prop :=
   RClosed prog γ.1 ∧ RStack γ.1 γ.2 st bts
 
-theorem RStack.ext {R : Option Region} {G0 : Array GroupData} {st st' : State}
+theorem RStack.ext {R : Option SRegion} {G0 : Array GroupData} {st st' : State}
     {bts bts' : Array BtInsn} {ip : Nat} {insn : Insn} (h : RStack R G0 st bts)
     (hext : Ext prog ip insn st bts st' bts')
     (hs : ∀ t ∈ allSuccs prog ip insn, InR R t) (hg : ∀ g, groupOf insn = some g → GInR R g) :
@@ -1928,7 +1928,7 @@ theorem restoreG_getElem? : ∀ (saved : List GroupData) (id : Nat) (gs : Array 
       · have : ¬ (id ≤ g ∧ g < id + (rest.length + 1) ∧ g < gs.size) := by omega
         simp only [h3, this, if_false]
 
-theorem spliceGroups_getElem? : ∀ (saved : List GroupData) (id : Nat) (gs : Array GroupData) (g : Nat),
+theorem spliceGroups_getElemS? : ∀ (saved : List GroupData) (id : Nat) (gs : Array GroupData) (g : Nat),
     (spliceGroups saved id gs)[g]? =
       if id ≤ g ∧ g < id + saved.length ∧ g < gs.size then saved[g - id]? else gs[g]? := by
   intro saved
@@ -1986,21 +1986,21 @@ theorem arr_snoc {α} {bts : Array α} {l : List α} {top : α} (h : bts.toList 
   simp
 
 /-- The ghost state of a nested look-around run: its body region and the groups at its start. -/
-def rnest (_ : Option Region × Array GroupData) (ip _pos : Nat) (st : State) (sg eg k : Nat) :
-    Option Region × Array GroupData :=
+def rnest (_ : Option SRegion × Array GroupData) (ip _pos : Nat) (st : State) (sg eg k : Nat) :
+    Option SRegion × Array GroupData :=
   (some ⟨ip + 1, k, sg, eg⟩, st.groups)
 
-def RQM (γ : Option Region × Array GroupData) (_fwd : Bool) (_e : Nat) (st : State) : Prop :=
+def RQM (γ : Option SRegion × Array GroupData) (_fwd : Bool) (_e : Nat) (st : State) : Prop :=
   AgreeOut γ.1 st.groups γ.2
 
-def RQF (γ : Option Region × Array GroupData) (_fwd : Bool) (st : State) : Prop := st.groups = γ.2
+def RQF (γ : Option SRegion × Array GroupData) (_fwd : Bool) (st : State) : Prop := st.groups = γ.2
 
-theorem RStack.congr {R : Option Region} {G0 : Array GroupData} {st st' : State} {bts : Array BtInsn}
+theorem RStack.congr {R : Option SRegion} {G0 : Array GroupData} {st st' : State} {bts : Array BtInsn}
     (h : RStack R G0 st bts) (hg : st'.groups = st.groups) : RStack R G0 st' bts := by
   obtain ⟨rest, h1, h2, h3, h4⟩ := h
   exact ⟨rest, h1, h2, by rw [hg]; exact h3, by rw [hg]; exact h4⟩
 
-theorem rstep_vc (hlc : lookConfined prog = true) {γ : Option Region × Array GroupData} {fwd : Bool}
+theorem rstep_vc (hlc : lookConfined prog = true) {γ : Option SRegion × Array GroupData} {fwd : Bool}
     {ip pos : Nat} {st : State} {bts : Array BtInsn} (h : RInv prog γ fwd ip pos st bts) :
     StepVCE (RInv prog) (RInvB prog) RQM RQF rnest True γ fwd ip pos st bts
       (step prog inp ip pos fwd st bts) := by
@@ -2008,7 +2008,7 @@ theorem rstep_vc (hlc : lookConfined prog = true) {γ : Option Region × Array G
   cases hi : prog.insns[ip]? with
   | none => unfold step; rw [hi]; trivial
   | some insn =>
-    have hf := step_frame (inp := inp) hi pos fwd st bts
+    have hf := step_frameS (inp := inp) hi pos fwd st bts
     obtain ⟨hs, hg, hl⟩ := rclosed_spec hc hin hi
     cases hact : step prog inp ip pos fwd st bts with
     | err e => trivial
@@ -2062,17 +2062,17 @@ theorem rstep_vc (hlc : lookConfined prog = true) {γ : Option Region × Array G
         | true =>
           simp only [Bool.true_eq_false, if_false]
           exact ⟨hc, hstk.congr
-            (restore_eq hguard.1 hguard.2 hsz hag'' spliceGroups spliceGroups_getElem?)⟩
+            (restore_eq hguard.1 hguard.2 hsz hag'' spliceGroups spliceGroups_getElemS?)⟩
       · intro st' hq
         have hq' : st'.groups = st.groups := hq
         have hre : spliceGroups (st.groups.extract sg eg).toList sg st'.groups = st.groups :=
           restore_eq hguard.1 hguard.2 (by rw [hq']) (fun g _ => by rw [hq']) spliceGroups
-            spliceGroups_getElem?
+            spliceGroups_getElemS?
         cases neg with
         | true => simp only [if_true]; exact ⟨hc, hk, hstk.congr hre⟩
         | false => simp only [Bool.false_eq_true, if_false]; exact ⟨hc, hstk.congr hre⟩
 
-theorem rbackLoop_vc (γ : Option Region × Array GroupData) (fwd : Bool) (hc : RClosed prog γ.1) :
+theorem rbackLoop_vc (γ : Option SRegion × Array GroupData) (fwd : Bool) (hc : RClosed prog γ.1) :
     ∀ n st bts, RStack γ.1 γ.2 st bts →
       BtPostE True (RInv prog γ fwd) (RQF γ fwd) (tryBacktrackLoop prog inp fwd n st bts) := by
   intro n
@@ -2092,11 +2092,11 @@ theorem rbackLoop_vc (γ : Option Region × Array GroupData) (fwd : Bool) (hc : 
       have hsn : bts.toList = (.exhausted :: rest') ++ [top] := by rw [hb]; simp
       obtain ⟨hbk, hpop, hset⟩ := arr_snoc hsn
       rw [hbk]
-      have hrec' : ∀ r ∈ rest', recIn γ.1 r := fun r hr => hrec r (by simp [hr])
-      have htop : recIn γ.1 top := hrec top (by simp)
+      have hrec' : ∀ r ∈ rest', recInS γ.1 r := fun r hr => hrec r (by simp [hr])
+      have htop : recInS γ.1 top := hrec top (by simp)
       -- the stack below the top, for a state with the same groups
       have below : ∀ st' : State, st'.groups = st.groups → (∀ id d, top ≠ .setCaptureGroup id d) →
-          ∀ new : List BtInsn, (∀ r ∈ new, recIn γ.1 r ∧ ∀ id d, r ≠ .setCaptureGroup id d) →
+          ∀ new : List BtInsn, (∀ r ∈ new, recInS γ.1 r ∧ ∀ id d, r ≠ .setCaptureGroup id d) →
           ∀ bts' : Array BtInsn, bts'.toList = .exhausted :: (rest' ++ new) →
           RStack γ.1 γ.2 st' bts' := by
         intro st' hg' hnt new hnew bts' hb'
@@ -2203,7 +2203,7 @@ run started with the stack `[Exhausted]`:
 * if it matches inside a region (look-around body), only the groups of the region may differ.
 (Errors are not excluded here: `PostE True`.) -/
 theorem run_restores (hlc : lookConfined prog = true) (limit : Nat) :
-    ∀ sf (γ : Option Region × Array GroupData) ip pos fwd st bts steps peak,
+    ∀ sf (γ : Option SRegion × Array GroupData) ip pos fwd st bts steps peak,
       RInv prog γ fwd ip pos st bts →
       PostE True (RQM γ fwd) (RQF γ fwd) (run prog inp limit sf ip pos fwd st bts steps peak) :=
   run_ruleE prog inp (RInv prog) (RInvB prog) RQM RQF rnest True
@@ -2283,15 +2283,15 @@ theorem OStk.congr {c : OrdCert} {fwd : Bool} {st st' : State} {bts : Array BtIn
   obtain ⟨rest, h1, h2⟩ := h
   exact ⟨rest, h1, by rw [hg]; exact h2⟩
 
-def OInv (prog : Prog) (c : OrdCert) (γ : Option Region × Array GroupData) (fwd : Bool) (ip pos : Nat)
+def OInv (prog : Prog) (c : OrdCert) (γ : Option SRegion × Array GroupData) (fwd : Bool) (ip pos : Nat)
     (st : State) (bts : Array BtInsn) : Prop :=
   RInv prog γ fwd ip pos st bts ∧ OrdAt c fwd ip pos st.groups ∧ OStk c fwd st bts
 
-def OInvB (prog : Prog) (c : OrdCert) (γ : Option Region × Array GroupData) (fwd : Bool)
+def OInvB (prog : Prog) (c : OrdCert) (γ : Option SRegion × Array GroupData) (fwd : Bool)
     (st : State) (bts : Array BtInsn) : Prop :=
   RInvB prog γ fwd st bts ∧ OStk c fwd st bts
 
-def OQM (γ : Option Region × Array GroupData) (fwd : Bool) (e : Nat) (st : State) : Prop :=
+def OQM (γ : Option SRegion × Array GroupData) (fwd : Bool) (e : Nat) (st : State) : Prop :=
   RQM γ fwd e st ∧ ∀ (g : Nat) (gd : GroupData), st.groups[g]? = some gd → Ordered gd
 
 theorem outVec_plain {insn : Insn} (h : groupOf insn = none) (v : Array Nat) : outVec insn v = v := by
@@ -2365,7 +2365,7 @@ theorem not_look_of_cont {ip : Nat} {insn : Insn} (hi : prog.insns[ip]? = some i
 
 /-- The three capture group instructions. -/
 theorem ogroup_vc {c : OrdCert} (hchk : checkOrd prog c = true) (hlc : lookConfined prog = true)
-    {γ : Option Region × Array GroupData} {fwd : Bool} {ip pos : Nat} {st : State}
+    {γ : Option SRegion × Array GroupData} {fwd : Bool} {ip pos : Nat} {st : State}
     {bts : Array BtInsn} (h : OInv prog c γ fwd ip pos st bts) {insn : Insn}
     (hi : prog.insns[ip]? = some insn) {g : Nat} (upd : GroupData → GroupData) (site : String)
     (hstep : step prog inp ip pos fwd st bts = groupAct g upd site ip pos st bts)
@@ -2398,7 +2398,7 @@ theorem ogroup_vc {c : OrdCert} (hchk : checkOrd prog c = true) (hlc : lookConfi
       exact hs
 
 theorem ostep_vc {c : OrdCert} (hchk : checkOrd prog c = true) (hlc : lookConfined prog = true)
-    {γ : Option Region × Array GroupData} {fwd : Bool} {ip pos : Nat} {st : State}
+    {γ : Option SRegion × Array GroupData} {fwd : Bool} {ip pos : Nat} {st : State}
     {bts : Array BtInsn} (h : OInv prog c γ fwd ip pos st bts) :
     StepVCE (OInv prog c) (OInvB prog c) OQM RQF rnest True γ fwd ip pos st bts
       (step prog inp ip pos fwd st bts) := by
@@ -2408,7 +2408,7 @@ theorem ostep_vc {c : OrdCert} (hchk : checkOrd prog c = true) (hlc : lookConfin
   cases hi : prog.insns[ip]? with
   | none => unfold step; rw [hi]; trivial
   | some insn =>
-    have hf := step_frame (inp := inp) hi pos fwd st bts
+    have hf := step_frameS (inp := inp) hi pos fwd st bts
     have hp := step_pos (prog := prog) (inp := inp) ip pos fwd st bts
     have hspec := checkOrd_spec hchk hi hv
     cases hgo : groupOf insn with
@@ -2486,12 +2486,12 @@ theorem ostep_vc {c : OrdCert} (hchk : checkOrd prog c = true) (hlc : lookConfin
               exact hs
           | true =>
             simp only [Bool.true_eq_false, if_false] at hR' ⊢
-            exact ⟨hR', hstk.congr (hre _ hsz hag'' spliceGroups spliceGroups_getElem?)⟩
+            exact ⟨hR', hstk.congr (hre _ hsz hag'' spliceGroups spliceGroups_getElemS?)⟩
         · intro st' hq
           have hR' := hRf st' hq
           have hq' : st'.groups = st.groups := hq
           have hsp : spliceGroups (st.groups.extract sg eg).toList sg st'.groups = st.groups :=
-            hre _ (by rw [hq']) (fun g _ => by rw [hq']) spliceGroups spliceGroups_getElem?
+            hre _ (by rw [hq']) (fun g _ => by rw [hq']) spliceGroups spliceGroups_getElemS?
           cases neg with
           | true =>
             simp only [if_true] at hR' ⊢
@@ -2627,7 +2627,7 @@ theorem obackLoop_vc {A : Bool → Nat → Nat → Prop} {V : Nat → Prop} (hs 
 section Total
 variable {A : Bool → Nat → Nat → Prop} {V : Nat → Prop}
 
-abbrev TGhost := Nat × (Option Region × Array GroupData)
+abbrev TGhost := Nat × (Option SRegion × Array GroupData)
 
 def TInv (prog : Prog) (A : Bool → Nat → Nat → Prop) (V : Nat → Prop) (c : OrdCert) (γ : TGhost)
     (fwd : Bool) (ip pos : Nat) (st : State) (bts : Array BtInsn) : Prop :=
